@@ -29,6 +29,9 @@ CHECKS = {
  "C08": dict(cat="fault_enumeration", tech="exhaustive single-fault and crash-prefix enumeration of the real writer's driver-operation history on an in-memory cfitsio I/O driver",
    text="The real write_fits and cfitsio buffer layer run on an in-memory disk registered as a cfitsio driver; the logged operation history (10..400 driver calls for six table shapes from 6 to 300 FITS blocks, incl. header overflow) is the object of enumeration: every operation index x {immediate error, deferred error at flush/close, four short-write lengths} must be reported by an exception (C: non-zero) unless the complete file is on disk, and every crash prefix at operation granularity plus torn final writes at byte granularity (every byte for small files, sector and card edges for large ones) must be rejected or load equal through both the memory and the disk reader. The virtual disk is bound to reality by byte-identity with a real file and by RLIMIT_FSIZE runs of the real disk driver in forked children.",
    note="trusted: the driver model (deferred errors modelled on stdio+ENOSPC), ref/fits_ref.hpp for file regions; single faults only; seek failures not injected", ref="4/C08", engine="fault"),
+ "C12": dict(cat="model_checking", tech="explicit-state exploration of all interleavings of the real walk_descents/evaluate_descent under a controlled scheduler (state matching), plus a free-running ThreadSanitizer pass",
+   text="The unmodified cholesky_solve.c is compiled with its pthread entry points renamed to a cooperative scheduler; for each configuration (1..3 workers, 2..7 trial steps = 1..3 blocks, workers fewer and more than trial steps, three data variants incl. the bind-and-retry branch) the complete reachable state graph at the granularity of lock / unlock / cond_wait / broadcast / create / join / exit is explored, one forked execution of the real code per transition, unbounded in preemptions. Every complete execution must terminate (a lost wake-up shows as 'no enabled thread'), join every worker once and return outputs bit-identical to the one-worker non-preemptive reference under ASan. Data-race freedom of photospline's own code, which the serialising scheduler cannot observe, is checked by running the same bodies and real monotonic fits free under ThreadSanitizer for 1..32 workers.",
+   note="trusted: engine/sched/ms_sched.c (sequentially consistent interleavings at synchronisation operations), the canonical-state function, TSan for races; CHOLMOD internals are uninstrumented", ref="4/C12", engine="sched"),
 }
 
 def cmd(pid, tier):
@@ -60,6 +63,8 @@ m = {"version": 1,
           "kind_free_text": "mixed-radix bounded-exhaustive enumerator, sharded over cores, crash/timeout attribution per case, replay-before-report, known-findings filter"},
          {"name": "fault", "path": "engine/vfs_driver.c + engine/vf.hpp + checks/run.py", "serves_properties": sorted(k for k, v in CHECKS.items() if v.get("engine") == "fault"),
           "kind_free_text": "fault / crash-point enumerator over a recorded operation history (cfitsio custom I/O driver, mutation of FITS bytes, argument deviations)"},
+         {"name": "sched", "path": "engine/sched/ms_sched.c + engine/sched/shim.h + checks/C12.cpp", "serves_properties": ["C12"],
+          "kind_free_text": "stateless model checker with state matching over the implementation: cooperative scheduler owning all pthread operations, fork-per-execution replay of choice prefixes"},
      ],
      "checks": checks,
      "notes": "All checks rebuild their harness from /repo's working tree (make, mtime based). known_findings.txt lists open findings (KNOWN-FINDING lines) and fixed ones (fix: commits in /repo).",
